@@ -114,6 +114,7 @@ type Machine struct {
 	preempts   int
 	yieldCount int
 	poolSeq    int
+	lastNow    *term.Term
 	proved     map[*term.Term]bool // conditions implied by the path condition (which only grows)
 	doneCh     chan struct{}
 	wg         sync.WaitGroup
@@ -482,6 +483,21 @@ func (m *Machine) newInput(name string, w uint8) *term.Term {
 	}
 	vn = "i_" + vn
 	var t *term.Term
+	if m.H.Fixed != nil {
+		// engine-side replay of a model: every input is a constant
+		var v uint64
+		if arr := m.H.Fixed[name]; k < len(arr) {
+			v = arr[k]
+		}
+		ww := w
+		if ww == 0 {
+			t = m.T.Bool(v&1 == 1)
+		} else {
+			t = m.T.Const(ww, v)
+		}
+		m.inputs = append(m.inputs, &Input{Name: name, Var: vn, W: w, T: t})
+		return t
+	}
 	t = m.T.Var(vn, w)
 	m.inputs = append(m.inputs, &Input{Name: name, Var: vn, W: w, T: t})
 	return t
